@@ -486,8 +486,9 @@ def error_specs(rng, full):
 
 def gen(ctx):
     rng = ctx.rng
-    full = ctx.thorough
-    n = 40000 if full else 1500
+    deep = ctx.thorough
+    full = True
+    n = 400000 if deep else 30000
     methods = ['m', '', 'a.b', 'é', 'rpc.x', '\U0001F600', 'x' * 100]
     # requests
     for _ in range(n):
@@ -541,8 +542,6 @@ def gen(ctx):
             if len(ids_only) != len(set(ids_only)):
                 continue    # duplicate ids are C06 ground
             if 'ser' not in [ops_alpha[k] if ops_alpha[k] == 'ser' else None for k in seq]:
-                continue
-            if length == 4 and not full and rng.random() < 0.8:
                 continue
             for which in ('request', 'response'):
                 yield 'history', {'which': which, 'ops': [ops_alpha[k] for k in seq]}
